@@ -82,9 +82,10 @@ def lit1 (G : Tables) (ws : List Nat) : Option (Operand × List Nat) :=
   | w :: t => some (.w G.vLit32 w, t)
   | [] => none
 
+/-- a 64-bit literal: low word first (words are 32-bit quantities) -/
 def lit2 (ws : List Nat) : Option (Operand × List Nat) :=
   match ws with
-  | lo :: hi :: t => some (.q (hi * 4294967296 + lo), t)
+  | lo :: hi :: t => some (.q ((hi % 4294967296) * 4294967296 + lo % 4294967296), t)
   | _ => none
 
 /-- a literal whose width the type `typeId` decides -/
@@ -173,5 +174,21 @@ def inst (G : Tables) (τ : Tracker) (ws : List Nat) : Option (Inst × List Nat)
       match loop G τ e.opcode (wc + e.ops.length + 1) e.ops ⟨none, none, []⟩ (t.take (wc - 1)) with
       | some (a, []) => some (⟨e.opcode, a.rtype, a.rid, a.ops⟩, t.drop (wc - 1))
       | _ => none
+
+/-- the instructions of a word stream, in order, up to the first one the grammar rejects (or the end), together with the
+words from that point on; the type tracker follows the delivered instructions -/
+def insts (G : Tables) : Nat → Tracker → List Nat → List Inst × List Nat
+  | 0, _, ws => ([], ws)
+  | fuel + 1, τ, ws =>
+    match inst G τ ws with
+    | none => ([], ws)
+    | some (i, rest) =>
+      match τ.track G.tt i with
+      | none => ([], ws)
+      | some τ1 => (i :: (insts G fuel τ1 rest).1, (insts G fuel τ1 rest).2)
+
+/-- the whole words of a binary after its five header words -/
+def streamWords (bytes : List Nat) : List Nat :=
+  (List.range ((bytes.length - 20) / 4)).map (fun k => le32 bytes (20 + 4 * k))
 
 end Rspirv.Model.Spec
